@@ -17,6 +17,8 @@ the caller's precision", resp. of the error bound holding for every component):
   O-R5  the step radius is a minimum folded over ALL components' last Taylor
         coefficients, then only shrunk
   O-R6  returned values are re-rounded (+y) after the precision is restored
+  O-R8  the step radius is estimated from the last TWO Taylor coefficients
+  O-R9  the difference scheme runs with at least n*tol_prec + prec bits
 """
 import ast
 
@@ -63,7 +65,7 @@ def run(run, ix, tier):
         'the size of the Taylor truncation error is not.')
     run.assumptions = ['user callback F is a pure function of (x, y)']
     run.trusted = []
-    for r, fl in (('O-R1', 4), ('O-R2', 3), ('O-R3', 3), ('O-R4', 1), ('O-R5', 2), ('O-R6', 2)):
+    for r, fl in (('O-R1', 4), ('O-R2', 3), ('O-R3', 3), ('O-R4', 1), ('O-R5', 2), ('O-R6', 2), ('O-R8', 1), ('O-R9', 1)):
         run.rule(r, floor=fl)
     check_tolerance_bits(run, ix)
     m = ix.module(ODES)
@@ -347,18 +349,26 @@ def run(run, ix, tier):
         if tgt is None:
             continue
         loop = None
+        inner_ok = True
         p = x._parent
         while p is not tay.node:
             if isinstance(p, (ast.For, ast.While)):
-                loop = p
-                break
+                if isinstance(p, ast.For) and norm(p.iter) == norm(serv):
+                    loop = p
+                    break
+                # an inner loop over a fixed tuple of coefficient indices is part of the fold
+                if not (isinstance(p, ast.For) and isinstance(p.iter, (ast.Tuple, ast.List))):
+                    inner_ok = False
+                loop = loop or p
             p = p._parent
         if loop is None:
             continue        # initial value
+        if not inner_ok:
+            loop = None
         # inside a loop over the components: must fold with min(radius, ...)
         isfold = isinstance(val, ast.Call) and norm(val.func) == 'min' and \
             any(isinstance(a, ast.Name) and a.id == rname for a in val.args)
-        over = isinstance(loop, ast.For) and norm(loop.iter) == norm(serv)
+        over = loop is not None and isinstance(loop, ast.For) and norm(loop.iter) == norm(serv)
         if isfold and over:
             folds += 1
             run.ok('O-R5', 'radius = min(radius, ...) for every component of %s' % norm(serv))
@@ -370,6 +380,61 @@ def run(run, ix, tier):
     if not folds and not run.rules['O-R5']['failed']:
         run.fail(Finding('O-R5', ODES, tay.qualname, 'radius', 'no fold of the radius over the components',
                          line=tay.lineno))
+
+    # ---- O-R8: the estimate looks at the last TWO coefficients -----------------------------------
+    # A solution that is even or odd about the expansion point has every second Taylor coefficient equal to
+    # zero; a radius taken from the last coefficient alone is then not bounded at all (step 0.5: tan x via
+    # y' = 1 + y^2 was off by 1e-5, exp(-50 x^2) by a factor 2e7).
+    idx = set()
+    for x in _walk_own(tay.node):
+        if isinstance(x, ast.Assign) and isinstance(x.targets[0], ast.Name) and x.targets[0].id == rname and \
+                isinstance(x.value, ast.Call) and norm(x.value.func) == 'min':
+            for sub in ast.walk(x.value):
+                if isinstance(sub, ast.Subscript) and norm(sub.value) == 'ts':
+                    sl = sub.slice
+                    if isinstance(sl, ast.Name):
+                        # index variable of an inner loop over a tuple
+                        p = x._parent
+                        while p is not tay.node:
+                            if isinstance(p, ast.For) and norm(p.target) == sl.id and isinstance(p.iter, (ast.Tuple, ast.List)):
+                                idx |= {norm(e) for e in p.iter.elts}
+                            p = p._parent
+                    else:
+                        idx.add(norm(sl))
+    degree = tay.params[-1]
+    last = {degree, '-1'}
+    prev = {'%s - 1' % degree, '-2'}
+    if idx & last and idx & prev:
+        run.ok('O-R8', 'radius estimated from the last two Taylor coefficients (%s)' % sorted(idx))
+    else:
+        run.fail(Finding('O-R8', ODES, tay.qualname, 'ts[%s]' % ', '.join(sorted(idx)),
+                         'the step radius is estimated from the coefficient(s) %s only: for a solution that is even or '
+                         'odd about the expansion point the last coefficient is exactly zero and the step is not '
+                         'bounded (fixed step 0.5, errors up to O(1))' % sorted(idx), line=tay.lineno))
+    # ---- O-R9: enough bits for the difference scheme ----------------------------------------------
+    # the j-th forward difference of samples spaced h = 2^-tol_prec cancels j*tol_prec bits: the raised precision
+    # must be at least n*tol_prec (+ the bits of the result)
+    from ..formula import Evaluator
+    sets = [x for x in _walk_own(tay.node) if isinstance(x, ast.Assign) and norm(x.targets[0]) == 'ctx.prec' and
+            not isinstance(x.value, ast.Name)]
+    if len(sets) != 1:
+        raise AnalysisError('ode_taylor: raised precision not found')
+    ev = Evaluator()
+    bad = None
+    for orig in (4, 10, 30, 53, 100, 333, 1000):
+        for tp in (orig + 10, orig // 2 + 1, 2 * orig + 7, 5):
+            for n in range(1, 41):
+                got = ev.ev(sets[0].value, {'orig': orig, 'tol_prec': tp, 'n': n})
+                if got < n * tp + orig and bad is None:
+                    bad = (orig, tp, n, got)
+    if bad:
+        run.fail(Finding('O-R9', ODES, tay.qualname, norm(sets[0]),
+                         'at prec %d, tol_prec %d, degree %d the difference scheme runs at %d bits but cancels %d: the '
+                         'top Taylor coefficients are noise - or exactly 0, which disables the step estimate '
+                         '(odefun(lambda x, y: -32*y, 0, 1)(0.5) returned -77386)'
+                         % (bad[0], bad[1], bad[2], bad[3], bad[2] * bad[1]), line=sets[0].lineno))
+    else:
+        run.ok('O-R9', '%s carries n*tol_prec + prec bits on the whole grid' % norm(sets[0]))
 
     # ---- O-R6 -------------------------------------------------------------------
     for r in [x for x in _walk_own(interp.node) if isinstance(x, ast.Return)]:
